@@ -303,6 +303,8 @@ def nibabel_image_to_precomputed(img,
     logger.info("Writing chunks... ")
     volume_to_precomputed(precomputed_writer, volume,
                           chunk_transformer=chunk_transformer)
+    # Flush buffered writes now (sharded accessor), so that errors are reported
+    precomputed_writer.accessor.close()
 
 
 def volume_file_to_precomputed(volume_filename,
